@@ -377,6 +377,21 @@ static void post_wakeup(int f)
 	}
 }
 
+/* An accepted event that was never received.  One history is a recorded finding of its own (known_findings.txt): the
+ * event sits behind an event that was claimed earlier but published later, and the wake-up that should have followed
+ * that later publication was refused because the atomic run queue was full (fibre_eventq_send returned false): the
+ * handler had already consumed this event's own wake-up while the event was not yet receivable. */
+static const char *lost_event_key(int i)
+{
+	if (evs[i].received)
+		return "event-received-twice";
+	for (int j = 0; j < nevs; j++)
+		if (j != i && evs[j].published && !evs[j].accepted && evs[j].ret && !evs[j].received && evs[j].inv < evs[i].inv &&
+		    evs[j].ret > evs[i].ret)
+			return "accepted-event-stranded-behind-refused-send";
+	return "event-lost";
+}
+
 static void post_event(void)
 {
 	uint64_t inv = ++ev_clock;
@@ -792,7 +807,7 @@ static uint64_t run(const scenario_t *sc, const char *script)
 		}
 	for (int i = 0; i < nevs && !ev_overflow; i++)
 		if (evs[i].accepted && evs[i].received != 1) {
-			viol("event", evs[i].received ? "event-received-twice" : "event-lost",
+			viol("event", lost_event_key(i),
 			     "event %u: fibre_eventq_send returned true, it was received %d times and the scheduler is idle", evs[i].id, evs[i].received);
 			return pts;
 		}
@@ -974,7 +989,7 @@ static void long_runs(void)
 			do_pass();
 		for (int i = 0; i < nevs && !failed && !ev_overflow; i++)
 			if (evs[i].accepted && evs[i].received != 1)
-				viol("event", evs[i].received ? "event-received-twice" : "event-lost",
+				viol("event", lost_event_key(i),
 				     "event %u of the long run: send returned true, received %d times, scheduler idle", evs[i].id, evs[i].received);
 		vh_evaluations++;
 		VH_COUNT("long_event_runs");
@@ -1127,7 +1142,7 @@ static void co_runs(void)
 			}
 		for (int i = 0; i < nevs && !failed && !ev_overflow; i++)
 			if (evs[i].accepted && evs[i].received != 1)
-				viol("event", evs[i].received ? "event-received-twice" : "event-lost",
+				viol("event", lost_event_key(i),
 				     "event %u: fibre_eventq_send returned true, received %d times, scheduler idle", evs[i].id, evs[i].received);
 		check_arrival_order();
 		vh_evaluations++;
